@@ -102,24 +102,44 @@ func rstr(c, s, resumed bool) string {
 }
 
 func execRes(f []string) zv.Out {
-	if len(f) != 8 || len(f[3]) != 3 || len(f[4]) != 4 || len(f[5]) != 4 {
+	if (len(f) != 8 && len(f) != 9) || len(f[3]) != 3 || len(f[4]) != 4 || len(f[5]) != 4 {
 		return zv.Out{Go: "bad-op"}
+	}
+	// optional hooks descriptor (hooks.go; permissive hooks only) between the cache field and the counter
+	var h hookSet
+	hooks := "-"
+	if len(f) == 9 {
+		var ok bool
+		hooks = f[7]
+		if h, ok = parseHooks(hooks); !ok || !h.permissive() {
+			return zv.Out{Go: "bad-op"}
+		}
 	}
 	ver, _ := strconv.Atoi(f[2])
 	v := verNum[ver]
 	li := serverLeaf(f[3])
 	cache := &mapCache{m: map[string]*tls.ClientSessionState{}, slot: f[6] == "1"}
 	scfg := &tls.Config{MinVersion: tls.VersionTLS10, MaxVersion: tls.VersionTLS13, Certificates: []tls.Certificate{li.cert}}
-	mk := func(d string) *tls.Config {
+	runs := [2]*hookRuns{{}, {}} // the client's callbacks, per connection
+	srvRuns := &hookRuns{}
+	mk := func(d string, i int) *tls.Config {
 		roots, _ := xpools(string(d[1]))
-		return &tls.Config{RootCAs: roots, ServerName: nameOf(d[2]), MinVersion: v, MaxVersion: v, InsecureSkipVerify: d[0] == '1',
+		c := &tls.Config{RootCAs: roots, ServerName: nameOf(d[2]), MinVersion: v, MaxVersion: v, InsecureSkipVerify: d[0] == '1',
 			Time: xtime(string(d[3])), ClientSessionCache: cache}
+		installClientHooks(c, h, runs[i])
+		return c
 	}
-	c1, s1, _, r1 := connect(mk(f[4]), scfg)
-	c2, s2, res2, r2 := connect(mk(f[5]), scfg)
+	scfg = installServerHooks(scfg, h, srvRuns) // one listener configuration (and so one set of ticket keys) for both connections
+	c1, s1, _, r1 := connect(mk(f[4], 0), scfg)
+	sr1 := srvRuns.snapshot()
+	c2, s2, res2, r2 := connect(mk(f[5], 1), scfg)
+	sr2 := srvRuns.snapshot().minus(sr1)
 	o := zv.Out{Go: fmt.Sprintf("c1=%s s1=%s c2=%s s2=%s r2=%s", okStr(c1), okStr(s1), okStr(c2), okStr(s2), rstr(c2, s2, res2))}
 	o.Tags = []string{"op=res", "ver=" + f[2], "srvcert=" + f[3], "first=" + f[4], "second=" + f[5], "cache=" + f[6], "outcome:" + o.Go,
 		"first-skip=" + f[4][:1], "second-skip=" + f[5][:1]}
+	if len(f) == 9 {
+		o.Tags = append(o.Tags, "op=res+hooks", "hooks="+hooks)
+	}
 	var viol []string
 	for i, r := range []*tlsrig.Result{r1, r2} {
 		if r.Client.Panic != nil || r.Server.Panic != nil {
@@ -154,6 +174,14 @@ func execRes(f []string) zv.Out {
 			}
 			viol = append(viol, fmt.Sprintf("%s: connection %d: client %s with verification enabled completed although the server's chain (%s) does not verify for its roots / clock / ServerName%s", cause, i+1, d, f[3], how))
 		}
+		if len(f) == 9 {
+			// the callbacks: not considered when normal verification fails (a full handshake), consulted once otherwise.
+			// A connection that was resumed (or whose resumption cannot be excluded) is exempt from the first sentence:
+			// resumption does not look at certificates again (finding F-C27-resume-other-roots lives there).
+			full := i == 0 || !c1 || (cok && sok && !res2)
+			viol = append(viol, clientHookViol(h, runs[i].snapshot(), fmt.Sprintf("connection %d: client %s (hooks %s)", i+1, d, hooks), !skip, !verifies, cok, full)...)
+			viol = append(viol, serverHookViol(h, []hookRuns{sr1, sr2}[i], fmt.Sprintf("connection %d: server (hooks %s)", i+1, hooks), 0, false, sok, i == 0 || (cok && sok && !res2))...)
+		}
 		if (skip || verifies) && !(cok && sok) {
 			viol = append(viol, fmt.Sprintf("refused: connection %d: client %s was refused although the server's chain (%s) verifies for it (or verification is off)%s: client %v server %v", i+1, d, f[3], how,
 				[]*tlsrig.Result{r1, r2}[i].Client.Err, []*tlsrig.Result{r1, r2}[i].Server.Err))
@@ -164,8 +192,17 @@ func execRes(f []string) zv.Out {
 }
 
 func execSRes(f []string) zv.Out {
-	if len(f) != 7 || len(f[4]) != 3 || len(f[5]) != 3 {
+	if (len(f) != 7 && len(f) != 8) || len(f[4]) != 3 || len(f[5]) != 3 {
 		return zv.Out{Go: "bad-op"}
+	}
+	var h hookSet
+	hooks := "-"
+	if len(f) == 8 {
+		var ok bool
+		hooks = f[6]
+		if h, ok = parseHooks(hooks); !ok || !h.permissive() {
+			return zv.Out{Go: "bad-op"}
+		}
 	}
 	ver, _ := strconv.Atoi(f[2])
 	v := verNum[ver]
@@ -182,18 +219,26 @@ func execSRes(f []string) zv.Out {
 	}
 	var tk [32]byte
 	copy(tk[:], "c27 shared session ticket key !!")
-	mk := func(d string) *tls.Config {
+	runs := [2]*hookRuns{{}, {}} // the servers' hooks, per connection (= per configuration)
+	cliRuns := &hookRuns{}
+	installClientHooks(ccfg, h, cliRuns)
+	mk := func(d string, i int) *tls.Config {
 		cas, _ := xpools(string(d[1]))
 		c := &tls.Config{MinVersion: tls.VersionTLS10, MaxVersion: tls.VersionTLS13, Certificates: []tls.Certificate{srv.cert},
 			ClientAuth: tls.ClientAuthType(int(d[0] - '0')), ClientCAs: cas, Time: xtime(string(d[2]))}
 		c.SetSessionTicketKeys([][32]byte{tk})
-		return c
+		return installServerHooks(c, h, runs[i])
 	}
-	c1, s1, _, r1 := connect(ccfg, mk(f[4]))
-	c2, s2, res2, r2 := connect(ccfg, mk(f[5]))
+	c1, s1, _, r1 := connect(ccfg, mk(f[4], 0))
+	cr1 := cliRuns.snapshot()
+	c2, s2, res2, r2 := connect(ccfg, mk(f[5], 1))
+	cr2 := cliRuns.snapshot().minus(cr1)
 	o := zv.Out{Go: fmt.Sprintf("c1=%s s1=%s c2=%s s2=%s r2=%s", okStr(c1), okStr(s1), okStr(c2), okStr(s2), rstr(c2, s2, res2))}
 	o.Tags = []string{"op=sres", "ver=" + f[2], "clicert=" + f[3], "first=" + f[4], "second=" + f[5], "outcome:" + o.Go,
 		"first-mode=" + f[4][:1], "second-mode=" + f[5][:1]}
+	if len(f) == 8 {
+		o.Tags = append(o.Tags, "op=sres+hooks", "hooks="+hooks)
+	}
 	var viol []string
 	for i, r := range []*tlsrig.Result{r1, r2} {
 		if r.Client.Panic != nil || r.Server.Panic != nil {
@@ -225,6 +270,18 @@ func execSRes(f []string) zv.Out {
 			if verify && peer && len(r.Server.State.VerifiedChains) == 0 {
 				viol = append(viol, fmt.Sprintf("connection %d: server %s completed with peer certificates but without a verified chain%s", i+1, d, how))
 			}
+		}
+		if len(f) == 8 {
+			cok := []bool{c1, c2}[i]
+			// the server's callbacks are not considered when the presented (or, on resumption, the stored) client
+			// certificate fails a verifying policy, or none is there under a requiring one.  Exempt: a session made
+			// without certificates (first server NoClientCert) resumed by VerifyClientCertIfGiven - nothing to verify.
+			noCertSession := i == 1 && c1 && s1 && f[4][0] == '0'
+			mustNotRun := mode >= 1 && ((need && cli == nil) || (verify && cli != nil && !verifies && !(noCertSession && !need)))
+			full := i == 0 || (cok && sok && !res2)
+			viol = append(viol, serverHookViol(h, runs[i].snapshot(), fmt.Sprintf("connection %d: server %s (hooks %s)", i+1, d, hooks), mode, mustNotRun, sok, full)...)
+			// the client (verifying, trusted server): consulted once per completed connection
+			viol = append(viol, clientHookViol(h, []hookRuns{cr1, cr2}[i], fmt.Sprintf("connection %d: client (hooks %s)", i+1, hooks), true, false, cok, full)...)
 		}
 		good := mode == 0 || (cli == nil && !need) || (cli != nil && (!verify || verifies))
 		if good && !sok {
@@ -324,5 +381,38 @@ func genResume(g *zv.Gen) {
 	}
 	for k := g.N(70, 2500); k > 0; k-- {
 		semit(srest[r.Intn(len(srest))])
+	}
+	// ---- the same two-connection scenarios with permissive Config hooks installed (hooks.go): same outcome demanded
+	// (drawn after everything above, so the plain streams are what they were)
+	rot := int(g.Seed % 1000)
+	hk := 0
+	hooksFor := func(list []string) []string {
+		hk++
+		if g.Quick {
+			return []string{list[(hk+rot)%len(list)]}
+		}
+		return list
+	}
+	for _, rw := range core {
+		for _, hs := range hooksFor(resHooks) {
+			g.Emitf("c27 res %d %s %s %s %s %s %d", rw.v, rw.srv, rw.a, rw.b, rw.cache, hs, n)
+			n++
+		}
+	}
+	for k := g.N(50, 1500); k > 0; k-- {
+		rw := rest[r.Intn(len(rest))]
+		g.Emitf("c27 res %d %s %s %s %s %s %d", rw.v, rw.srv, rw.a, rw.b, rw.cache, resHooks[r.Intn(len(resHooks))], n)
+		n++
+	}
+	for _, rw := range score {
+		for _, hs := range hooksFor(sresHooks) {
+			g.Emitf("c27 sres %d %s %s %s %s %d", rw.v, rw.cli, rw.a, rw.b, hs, n)
+			n++
+		}
+	}
+	for k := g.N(50, 1500); k > 0; k-- {
+		rw := srest[r.Intn(len(srest))]
+		g.Emitf("c27 sres %d %s %s %s %s %d", rw.v, rw.cli, rw.a, rw.b, sresHooks[r.Intn(len(sresHooks))], n)
+		n++
 	}
 }
